@@ -28,6 +28,33 @@ pub fn set_observer(f: Option<Observer>) {
     OBSERVER.store(p, Ordering::SeqCst);
 }
 
+/// `(address of the counter, ordering, value the real load returned) -> value the load returns`
+pub type LoadFilter = fn(usize, Ordering, usize) -> usize;
+
+static LOAD_FILTER: AtomicPtr<()> = AtomicPtr::new(core::ptr::null_mut());
+
+/// Install (or, with `None`, remove) a filter through which every `load` result passes. A harness that
+/// serialises threads uses it to hand a load an older value of the modification order, which the memory
+/// model allows and the hardware rarely produces.
+pub fn set_load_filter(f: Option<LoadFilter>) {
+    let p = match f {
+        Some(f) => f as *mut (),
+        None => core::ptr::null_mut(),
+    };
+    LOAD_FILTER.store(p, Ordering::SeqCst);
+}
+
+#[inline]
+fn filter_load(addr: usize, ord: Ordering, v: usize) -> usize {
+    let p = LOAD_FILTER.load(Ordering::SeqCst);
+    if p.is_null() {
+        v
+    } else {
+        let f: LoadFilter = unsafe { core::mem::transmute::<*mut (), LoadFilter>(p) };
+        f(addr, ord, v)
+    }
+}
+
 #[inline]
 fn report(addr: usize, op: u8, ord: Ordering, old: usize, new: usize) {
     let p = OBSERVER.load(Ordering::SeqCst);
@@ -51,7 +78,7 @@ impl AtomicUsize {
 
     #[inline]
     pub fn load(&self, order: Ordering) -> usize {
-        let v = self.0.load(order);
+        let v = filter_load(self as *const _ as usize, order, self.0.load(order));
         report(self as *const _ as usize, OP_LOAD, order, v, v);
         v
     }
